@@ -2,6 +2,7 @@
 from __future__ import annotations
 
 import json
+import os
 import sys
 from fractions import Fraction
 
@@ -77,7 +78,8 @@ class C20(vlib.Driver):
     trusted_base = ["hand-written model coq/theories/C20/Model.v",
                     "correspondence harness harness/c20.py, c20_run.py (event log from wrappers around get_action/learn/test/"
                     "clone/save_checkpoint and TournamentSelection.select / Mutations.mutation), c20_envs.py (scripted environments)"]
-    assumptions = ["np.argsort is stable for populations <= 16 (elite = last of the maximal mean fitnesses)",
+    assumptions = ["among several individuals with the same maximal mean fitness any may be kept as elite (np.argsort's tie order is "
+                   "platform dependent: the AVX-512 argsort is not stable); the model takes the choice as input and checks maximality",
                    "the fitness means compared for the elite are exact in float64 (rewards are multiples of 1/4, short episodes)",
                    "wandb / accelerate / LLM paths are outside the model; learning itself (gradient steps) is opaque"]
     shard = 12
@@ -111,6 +113,8 @@ class C20(vlib.Driver):
         add(loop="off", algo="TD3", evo=True, mut="param", elitism=True, pop=3, max_steps=16, save_elite=True)
         add(loop="off", algo="DQN", evo=True, mut="arch", elitism=True, mutate_elite=True, pop=3, max_steps=24, eval_loop=2, eval_steps=3)
         add(loop="off", algo="DQN", num_envs=0, learn_step=2, evo_steps=6, max_steps=12)
+        add(loop="off", algo="DDPG", num_envs=0, learn_step=1, evo_steps=5, max_steps=11, evo=True, mut="hp", checkpoint=5)
+        add(loop="off", algo="Rainbow DQN", num_envs=0, learn_step=3, evo_steps=7, max_steps=14, memory="per+nstep", n_step=2)
         # --- train_on_policy
         for k, (ne, ls) in enumerate([(1, 3), (2, 3), (2, 8), (4, 3), (4, 8), (1, 1), (2, 5)]):
             evo = [8, 12, 9][k % 3]
@@ -120,9 +124,11 @@ class C20(vlib.Driver):
         add(loop="on", algo="PPO", evo=True, mut="hp", learn_step=4, evo_steps=8, max_steps=32, pop=2, elitism=False, seed=7)
         add(loop="on", algo="PPO", act="box", learn_step=4, evo_steps=8, max_steps=16)
         add(loop="on", algo="PPO", num_envs=0, learn_step=3, evo_steps=6, max_steps=12)
+        add(loop="on", algo="PPO", num_envs=0, act="box", learn_step=1, evo_steps=5, max_steps=10, evo=True, mut="none", pop=3)
         # --- train_offline
         add(loop="offline", algo="CQN", evo_steps=3, max_steps=9)
         add(loop="offline", algo="CQN", evo_steps=4, max_steps=9, evo=True, mut="hp", checkpoint=4)
+        add(loop="offline", algo="CQN", num_envs=0, evo_steps=2, max_steps=6)
         # --- train_bandits
         add(loop="bandit", algo="NeuralUCB", episode_steps=5, evo_steps=5, max_steps=10)
         add(loop="bandit", algo="NeuralTS", episode_steps=4, evo_steps=6, max_steps=17, evo=True, mut="hp", learn_step=1)
@@ -149,15 +155,18 @@ class C20(vlib.Driver):
         for _ in range(nseed):
             loop = rng.choice(["off", "off", "off", "on", "on", "offline", "bandit", "maoff", "maon"])
             algo = rng.choice(R.ALGOS[loop])
-            ne = rng.choice([1, 2, 4, 1, 2, 3])
+            ne0 = rng.choice([1, 2, 4, 1, 2, 3, 0])       # 0 = plain (non-vectorised) environment
+            ne = max(1, ne0)
             ls = rng.choice([1, 2, 3, 5, 8])
             if loop == "maon" and -(-ls // ne) == 1:
                 ls = ne + rng.choice([1, 2])          # single-step rollouts are a listed finding (one quick case keeps it visible)
             evo = rng.choice([6, 8, 9, 12, 15])
-            c = dict(loop=loop, algo=algo, num_envs=ne, learn_step=ls, batch_size=rng.choice([2, 4, 6]), evo_steps=max(evo, ne),
+            c = dict(loop=loop, algo=algo, num_envs=ne0, learn_step=ls, batch_size=rng.choice([2, 4, 6]), evo_steps=max(evo, ne),
                      pop=rng.choice([2, 2, 3, 4]), ep_len=rng.choice([3, 4, 6]), seed=rng.randrange(10 ** 6),
                      learning_delay=rng.choice([0, 0, 4, 11]), mem_cap=rng.choice([8, 32, 64]), eval_loop=rng.choice([1, 1, 2]),
                      eval_steps=rng.choice([None, 3]))
+            if ne0 == 3:
+                c["eval_loop"] = 1      # keeps the elite's mean fitness exact (a mean over 3 sub-environments is not dyadic)
             if loop == "bandit":
                 c["episode_steps"] = rng.choice([2, 3, 5])
                 c["eval_steps"] = 2
@@ -179,6 +188,9 @@ class C20(vlib.Driver):
             if rng.random() < 0.4:
                 c.update(checkpoint=rng.choice([S, S + 1, 2 * S, max(1, S // 2)]), overwrite=rng.random() < 0.3)
             cases.append(c)
+        only = os.environ.get("C20_LOOPS")      # developer shortcut for the mutation self-test (never in MANIFEST commands)
+        if only:
+            cases = [c for c in cases if c["loop"] in only.split(",")]
         return cases
 
     # ---------- implementation
@@ -214,24 +226,22 @@ class C20(vlib.Driver):
             hps = "[" + "; ".join("{| ls := %d; bs := %d |}" % (t["learn_step"], t["batch_size"]) for t in d["tests"]) + "]"
             fit = "[" + "; ".join(coq_Q(t["fit"]) for t in d["tests"]) + "]"
             sel = d["select"]
-            elit = bool(case.get("elitism", True))
             if sel is not None:
-                par = sel["parents"][1:] if elit else sel["parents"]
-                if any(p < 0 for p in sel["parents"]):
+                par = sel["parents"]          # with elitism the first entry is the elite's position
+                if any(p < 0 for p in par):
                     return "false"
-                elite = f"(Some {sel['parents'][0]})" if elit else "None"
                 snaps = d["mutation"]["snaps"] if d["mutation"] else sel["after"]
                 after = [(s["index"], s["steps"][-1], len(s["steps"]), s["nfit"], tk) for s, tk in zip(snaps, d["taken_after"])]
             else:
-                par, elite = [], "None"
+                par = []
                 after = [(t["index"], t["steps"][-1], len(t["steps"]) + 1, t["nfit"], tk) for t, tk in zip(d["tests"], d["taken_after"])]
             inps.append("{| g_hps := %s; g_fit := %s; g_parents := [%s] |}" % (hps, fit, "; ".join(map(str, par))))
             rolls = d["rolls"] if len(d["rolls"]) == npop else d["rolls"] + [(4999, 4999)]
             tested = [(t["index"], t["steps"][-1], len(t["steps"]), t["nfit"]) for t in d["tests"]]
             cks = ck_steps(d["saves"])
-            obl.append("{| b_roll := [%s]; b_tested := [%s]; b_elite := %s; b_after := [%s]; b_saved := %s |}" % (
+            obl.append("{| b_roll := [%s]; b_tested := [%s]; b_sel := %s; b_after := [%s]; b_saved := %s |}" % (
                 "; ".join(f"({a}, {b})" for a, b in rolls),
-                "; ".join("(%d, %d, %d, %d)" % t for t in tested), elite,
+                "; ".join("(%d, %d, %d, %d)" % t for t in tested), "true" if sel is not None else "false",
                 "; ".join("(%d, %d, %d, %d, %d)" % t for t in after),
                 "None" if cks is None else "(Some [" + "; ".join(map(str, cks)) + "])"))
         final = "; ".join("(%d, [%s], %d, %d)" % (f["index"], "; ".join(map(str, f["steps"])), f["nfit"], tk)
@@ -261,6 +271,8 @@ class C20(vlib.Driver):
         fin = obs["final"]
         mx = case["max_steps"]
         # population size and indices
+        if len(set(obs["pop_in_indices"])) != npop:
+            out.append(Violation("indices", f"indices:{tag}:create_population", f"create_population built indices {obs['pop_in_indices']}"))
         if len(fin) != npop:
             out.append(Violation("pop-size", f"pop-size:{tag}", f"given {npop} agents, returned {len(fin)}"))
         idxs = [f["index"] for f in fin]
@@ -313,6 +325,46 @@ class C20(vlib.Driver):
                             out.append(Violation("elite", f"elite:{tag}:changed",
                                                  f"generation {gi}: the elite (position {p0}, index {before[p0]['index']}) was not carried unchanged "
                                                  f"(mutation applied: {d['mutation']['muts'][0]})"))
+        # documented frequencies: learn_step ("learning frequency") once the memory is ready for the whole phase, and
+        # evolution every generation (bandits: "evo_steps: evolution frequency (steps)", each time member 0 crosses a multiple)
+        if loop in ("off", "maoff"):
+            ne = ne_of(case)
+            cap = case.get("mem_cap", 64)
+            delay = case.get("learning_delay", 0)
+            warm = (case.get("n_step", 3) - 1) * ne if case.get("memory") in ("nstep", "per+nstep") else 0
+            stored = -warm
+            n_it = case["evo_steps"] // ne
+            for gi, d in enumerate(gens):
+                for pos, (t, r) in enumerate(zip(d["tests"], d["rolls"])):
+                    ls_, bs_ = t["learn_step"], t["batch_size"]
+                    steady = stored >= bs_ and cap >= bs_ and (stored > delay if loop == "maoff" else min(stored, cap) > delay)
+                    if steady:
+                        want = -(-n_it // (ls_ // ne)) if ls_ > ne else n_it * (ne // ls_)
+                        if r[1] != want:
+                            out.append(Violation("learn-frequency", f"learn-frequency:{tag}",
+                                                 f"generation {gi} position {pos}: learn_step={ls_}, num_envs={ne}, {n_it} iterations on a ready memory "
+                                                 f"({stored} transitions stored, batch_size {bs_}, delay {delay}): {r[1]} learn calls, expected {want}"))
+                    stored += r[0]
+        if loop in ("on", "maon"):
+            for gi, d in enumerate(gens):
+                for pos, (t, r) in enumerate(zip(d["tests"], d["rolls"])):
+                    want = -(-case["evo_steps"] // t["learn_step"])
+                    if r[1] != want:
+                        out.append(Violation("learn-frequency", f"learn-frequency:{tag}",
+                                             f"generation {gi} position {pos}: {r[1]} learn calls for evo_steps={case['evo_steps']}, learn_step={t['learn_step']} (expected {want})"))
+        if case.get("evo"):
+            count = 0
+            for gi, d in enumerate(gens):
+                if stopped_early and gi == G - 1:
+                    break
+                s0 = d["tests"][0]["steps"][-1]
+                should = (s0 // case["evo_steps"] > count) if loop == "bandit" else True
+                if (d["select"] is not None) != should:
+                    out.append(Violation("evolution-frequency", f"evolution-frequency:{tag}",
+                                         f"generation {gi}: member 0 at {s0} steps, evo_steps={case['evo_steps']}, {count} evolutions so far: "
+                                         f"selection {'ran' if d['select'] is not None else 'did not run'}"))
+                if d["select"] is not None:
+                    count += 1
         # returned agents
         for pos, f in enumerate(fin):
             want = taken[pos] if loop != "offline" else learned[pos]
@@ -353,6 +405,23 @@ class C20(vlib.Driver):
             if v.signature not in seen:
                 seen.add(v.signature); uniq.append(v)
         return uniq
+
+    def extra_static(self):
+        """Sampler dispatches to the buffer-specific sample function (anchored mechanism, checked on the real classes)"""
+        from agilerl.components.sampler import Sampler
+        from agilerl.components.replay_buffer import ReplayBuffer, MultiStepReplayBuffer, PrioritizedReplayBuffer
+        from agilerl.components.multi_agent_replay_buffer import MultiAgentReplayBuffer
+        out = []
+        want = [(ReplayBuffer(4), "sample_standard"), (MultiStepReplayBuffer(4, n_step=2), "sample_n_step"),
+                (PrioritizedReplayBuffer(4, alpha=0.6), "sample_per"),
+                (MultiAgentReplayBuffer(4, field_names=["state"], agent_ids=["a_0"]), "sample_standard")]
+        for mem, name in want:
+            got = getattr(Sampler(memory=mem).sample, "__name__", "?")
+            if got != name:
+                out.append(Violation("sampler-dispatch", f"sampler-dispatch:{type(mem).__name__}",
+                                     f"Sampler(memory={type(mem).__name__}).sample is {got}, expected {name}",
+                                     {"static": type(mem).__name__}, None, found_input=True))
+        return out
 
     def key(self, case):
         k = {a: b for a, b in case.items() if a != "seed"}
